@@ -15,6 +15,7 @@ def main():
     ap.add_argument("--timeout", type=int, default=10000)
     ap.add_argument("-v", action="store_true")
     ap.add_argument("--jobs", type=int, default=None)
+    ap.add_argument("--only", default=None, help="solve only obligations whose id contains this")
     a = ap.parse_args()
     from contracts.base import build_world
     from contracts.targets import TARGETS
@@ -31,6 +32,8 @@ def main():
         if r.out_of_reach:
             print(f"== {cname}: OUT OF REACH: {r.out_of_reach}")
             continue
+        if a.only:
+            r.obligations = [o for o in r.obligations if a.only in o.id]
         discharge(r.obligations, timeout_ms=a.timeout, jobs=a.jobs)
         n = len(r.obligations)
         d = sum(1 for o in r.obligations if o.verdict == "discharged")
